@@ -1248,6 +1248,9 @@ type OutsParams struct {
 	Collide int `json:",omitempty"`
 	// Keys is the MapKeyStyle of the typed maps the producer returns.
 	Keys int `json:",omitempty"`
+	// TopKeys (with TopMap): the top-level call is mapped over a typed map
+	// instead of an array: 1 plain keys, 2 a key holding '/', 3 the key "..".
+	TopKeys int `json:",omitempty"`
 }
 
 func (d OutsParams) String() string {
@@ -1257,6 +1260,9 @@ func (d OutsParams) String() string {
 	}
 	if d.Keys != 0 {
 		c += fmt.Sprintf(" keys=%d", d.Keys)
+	}
+	if d.TopKeys != 0 {
+		c += fmt.Sprintf(" topkeys=%d", d.TopKeys)
 	}
 	return fmt.Sprintf("outs{outs=%s outname=%v size=%d mode=%d prodmap=%v topmap=%v wrap=%v%s}",
 		strings.Join(d.Outs, "+"), d.OutName, d.Size, d.Mode, d.ProdMap, d.TopMap, d.Wrap, c)
@@ -1371,6 +1377,12 @@ func OutsFlow(d OutsParams) *Program {
 	if d.TopMap {
 		p.Top.Map = true
 		p.Top.Binds[0].E = SplitE(Lit(Arr(Int(int64(d.Size)), Int(int64(d.Size)+1))))
+		if d.TopKeys != 0 {
+			keys := [][]string{nil, {"a", "b"}, {"a", "a/b"}, {"..", "c"}}[d.TopKeys]
+			p.Top.Binds[0].E = SplitE(Lit(Obj(map[string]*Val{keys[0]: Int(int64(d.Size)), keys[1]: Int(int64(d.Size) + 1)})))
+		}
+	} else if d.TopKeys != 0 {
+		return nil
 	}
 	FixUnused(p)
 	return p
@@ -1433,6 +1445,16 @@ func OutsFamily(thorough bool) []OutsParams {
 					for _, wr := range []bool{false, true} {
 						out = append(out, OutsParams{Outs: set, OutName: on, Size: 2, ProdMap: pm, TopMap: tm, Wrap: wr})
 					}
+				}
+			}
+		}
+	}
+	// the top-level call mapped over a typed map
+	for tk := 1; tk <= 3; tk++ {
+		for _, set := range [][]string{{"f"}, {"fs"}, {"s"}, {"d"}, {"f", "s", "num"}} {
+			for _, wr := range []bool{false, true} {
+				for _, pm := range []bool{false, true} {
+					out = append(out, OutsParams{Outs: set, Size: 2, TopMap: true, Wrap: wr, ProdMap: pm, TopKeys: tk})
 				}
 			}
 		}
